@@ -427,6 +427,53 @@ def sym_saw_twin(c, cmode, amode):
     c.witness(True, "ran")
 
 
+def sym_iet_twin(c, cmode, amode):
+    """IntervalEstimationThreshold on annotators that contradict each other (its annotator model takes a majority vote whose
+    ties are broken at random): the result must not depend on the process-global generator"""
+    from harness import C07
+    P = __import__("skactiveml.pool.multiannotator", fromlist=["IntervalEstimationThreshold"])
+    s = C07.gen(c, 2, 2, cmode, amode)
+    if not s.avail:
+        raise core.PathAbort("no available pair")
+    outs = []
+    for g in ("G1", "G2"):
+        facade.set_global_seed(z3.Int(g))
+        clf = models.StubClassifier(classes=[0, 1], n_classes=2, gen=7)
+        clf.classes_ = np.arange(2)
+        qs = P.IntervalEstimationThreshold(random_state=s.seed)
+        outs.append(qs.query(s.X, s.y, clf, fit_clf=False, candidates=s.cand, annotators=s.annot, batch_size=2, return_utilities=True))
+    def flat_idx(o):
+        return [int(v) for v in arrays.raw(arrays.asnd(o[0])).reshape(-1)]
+    same = flat_idx(outs[0]) == flat_idx(outs[1])
+    if same:
+        r1, r2 = arrays.raw(arrays.asnd(outs[0][1])), arrays.raw(arrays.asnd(outs[1][1]))
+        same = r1.shape == r2.shape and b_and(*[b_or(boolexpr(s_eq(a, b)), b_and(pl.is_nan_z(a), pl.is_nan_z(b)))
+                                                 for a, b in zip(r1.reshape(-1), r2.reshape(-1))])
+    c.prove(same, "independent_of_global_generator_and_twin_equal", info=dict(first=flat_idx(outs[0]), twin=flat_idx(outs[1])))
+    c.witness(True, "ran")
+
+
+def replay_iet_twin(inputs, label, cmode, amode):
+    from skactiveml.classifier import ParzenWindowClassifier
+    P = __import__("skactiveml.pool.multiannotator", fromlist=["IntervalEstimationThreshold"])
+    # annotators that contradict each other on every labeled sample
+    rs = np.random.RandomState(0)
+    Xb = np.round(rs.randn(12, 1), 2)
+    yb = np.full((12, 2), np.nan)
+    yb[:6, 0], yb[:6, 1] = 0, 1
+    for seed in (int(inputs.get("seed", 0)), 0, 1, 2):
+        outs = []
+        for g in range(8):
+            np.random.seed(g)
+            clf = ParzenWindowClassifier(classes=[0, 1], random_state=0).fit(Xb, np.where(np.arange(12) < 6, np.arange(12) % 2, np.nan).astype(float))
+            o = P.IntervalEstimationThreshold(random_state=seed).query(Xb, yb, clf, fit_clf=False, batch_size=2, return_utilities=True)
+            outs.append((np.asarray(o[0]).tolist(), np.round(np.asarray(o[1], dtype=float), 9).tolist()))
+        if any(repr(o) != repr(outs[0]) for o in outs):
+            return True, (f"IntervalEstimationThreshold(random_state={seed}).query on 12 samples with two contradicting annotators depends on "
+                          f"numpy's global generator: {[o[0] for o in outs[:4]]}")
+    return False, "not reproduced"
+
+
 def replay_saw_twin(inputs, label, cmode, amode):
     from harness import C07
     from skactiveml.classifier import ParzenWindowClassifier
@@ -571,6 +618,11 @@ HARNESSES = [Harness(f"pool_twin[{name}]", sym_pool, replay_pool, _cfg_pool(name
                                                                   [(a, b) for a in ("none", "idx", "rows") for b in ("none", "idx", "matrix")])],
             ["skactiveml.pool.multiannotator._wrapper:SingleAnnotatorWrapper.query", "skactiveml.utils._aggregation:majority_vote"],
             required_witnesses=("ran",)),
+    Harness("interval_estimation_threshold_twin", sym_iet_twin, replay_iet_twin,
+            lambda tier: [dict(cmode="none", amode="none")] + ([dict(cmode="idx", amode="idx")] if tier != "quick" else []),
+            ["skactiveml.pool.multiannotator._interval_estimation_threshold:IntervalEstimationThreshold.query",
+             "skactiveml.pool.multiannotator._interval_estimation_threshold:IntervalEstimationAnnotModel.fit",
+             "skactiveml.utils._aggregation:majority_vote"], required_witnesses=("ran",)),
     Harness("classifier_tie_breaking", sym_clf, replay_clf,
             lambda tier: [dict(n=2, nq=2)] + [dict(n=2, nq=1, kind=k, cost=cm) for k in ("pwc", "sklearn") for cm in (False, True) if (k, cm) != ("pwc", False)],
             ["skactiveml.base:SkactivemlClassifier.predict", "skactiveml.utils._selection:rand_argmin"], required_witnesses=("ran",)),
